@@ -34,7 +34,7 @@ type Instance struct {
 
 // Plan is the part of a run that a replay file pins.
 type Plan struct {
-	Policy   string `json:"policy"`             // fifo | random | sticky | pct
+	Policy   string `json:"policy"`             // fifo | random | sticky | pct | batch
 	Schedule []int  `json:"schedule,omitempty"` // explicit choices (indices into the arrival-ordered parked list); exhausted => policy
 	// ErrAt lists indices of *faultable* seam calls (counted in release order) that fail with no effect.
 	ErrAt []int `json:"err_at,omitempty"`
@@ -87,6 +87,7 @@ type Stats struct {
 	IdleJumps  int            `json:"idle_jumps"`
 	MaxParked  int            `json:"max_parked"`
 	Choices    int            `json:"choices_with_alternatives"`
+	Batched    int            `json:"released_in_a_batch,omitempty"`
 	VirtualMS  int64          `json:"virtual_ms"`
 }
 
@@ -545,7 +546,65 @@ func (s *Sim) Run(done func() bool, idleLimit time.Duration) {
 		s.mu.Lock()
 		s.released[p.tid]++
 		s.mu.Unlock()
-		p.release <- err
+		// batch policy (race build): further parked calls are released in the same step.
+		// The tasks of one batch are not ordered by any hand-off through the scheduler,
+		// so the race detector sees their segments as concurrent.
+		var extra []*park
+		if s.Plan.Policy == "batch" && p.class != SettleClass && len(cand) > 1 {
+			k := int(s.Rng.Uint64() % 4) // 0..3 more
+			rest := make([]*park, 0, len(cand))
+			for _, q := range cand {
+				if q != p && q.class != SettleClass {
+					rest = append(rest, q)
+				}
+			}
+			for ; k > 0 && len(rest) > 0; k-- {
+				i := int(s.Rng.Uint64() % uint64(len(rest)))
+				extra = append(extra, rest[i])
+				rest = append(rest[:i], rest[i+1:]...)
+			}
+			s.mu.Lock()
+			for _, q := range extra {
+				for i, r := range s.parked {
+					if r == q {
+						s.parked = append(s.parked[:i], s.parked[i+1:]...)
+						break
+					}
+				}
+				s.released[q.tid]++
+				if q.fault {
+					s.fidx++
+					s.Stats.Faultable = s.fidx
+				}
+				s.Stats.SeamCalls[q.class]++
+				s.Stats.Batched++
+			}
+			s.mu.Unlock()
+			for _, q := range extra {
+				s.record(TraceEvent{Step: s.step, T: s.Now().Milliseconds(), Tid: q.tid, Class: q.class, Label: q.label, What: "run+", N: len(cand), FIdx: -1})
+			}
+		}
+		if len(extra) == 0 {
+			p.release <- err
+			continue
+		}
+		// The members of a batch run one after the other (each is woken by its own helper
+		// at its own virtual nanosecond, and virtual time only advances when everybody is
+		// blocked again), so the execution is as repeatable as a serial one; but the
+		// helpers were all started before any member ran, so no hand-off orders one
+		// member after another for the race detector.
+		all := append([]*park{p}, extra...)
+		for i, q := range all {
+			var e error
+			if i == 0 {
+				e = err
+			}
+			go func(q *park, d time.Duration, e error) {
+				time.Sleep(d)
+				q.release <- e
+			}(q, time.Duration(i+1), e)
+		}
+		time.Sleep(time.Duration(len(all) + 1))
 	}
 }
 
@@ -564,7 +623,7 @@ func (s *Sim) choose(cand []*park) int {
 		return 0
 	}
 	switch s.Plan.Policy {
-	case "random":
+	case "random", "batch":
 		return int(s.Rng.Uint64() % uint64(n))
 	case "sticky":
 		// keep running the task that ran last with probability 7/8
